@@ -257,6 +257,8 @@ class Writer:
         return "unknown"
 
     # ---- key tree ----------------------------------------------------------
+    pretty = True
+
     def method_skeleton(self, m: FuncInfo) -> str:
         """Concatenation, in statement order, of everything method m hands to the
         layout helpers or appends to its `json` accumulator, with placeholders
@@ -296,7 +298,7 @@ class Writer:
             return out
         import copy
         from .intdec import Specializer
-        folded = Specializer(None, valuation=lambda x: True if isinstance(x, ast.Attribute) and x.attr == "pretty_print" else None
+        folded = Specializer(None, valuation=lambda x: self.pretty if isinstance(x, ast.Attribute) and x.attr == "pretty_print" else None
                              ).visit(copy.deepcopy(m.node))
         ast.fix_missing_locations(folded)
         stmts = [n for n in ast.walk(folded) if isinstance(n, ast.stmt) and hasattr(n, "lineno")]
